@@ -4,11 +4,11 @@ package main
 // and the SMT-LIB 2 printer.
 
 import (
-	"os"
 	"crypto/sha1"
-	"io"
 	"fmt"
+	"io"
 	"math/big"
+	"os"
 	"sort"
 	"strings"
 )
